@@ -202,7 +202,32 @@ theorem listAtomOK_facts {s : Bytes} (h : listAtomOK s = true) :
   · exact Or.inr (Or.inl h1)
   · exact Or.inr (Or.inr h1)
 
-theorem rt_parseListMailbox (c : Choices) (s : BStr) (fuel : Nat) (hf : s.length + 1 < fuel) :
+/-- a list-mailbox pattern the printer can write without a literal (`Gluon.C10.list_literal_witness`):
+as list characters, or as a quoted string -/
+def ListPatOK (p : BStr) : Prop := listAtomOK p = true ∨ quotedOK p = true
+
+set_option maxRecDepth 100000 in
+theorem listChar_noCRLF : ∀ n, n < 256 → (rfcAStringCharN n = true ∨ n = 37 ∨ n = 42) → n ≠ 13 ∧ n ≠ 10 := by
+  decide +kernel
+
+theorem ListPatOK.noCRLF {p : BStr} (h : ListPatOK p) : NoCRLF p := by
+  rcases h with h | h
+  · unfold listAtomOK at h
+    simp only [Bool.and_eq_true, Bool.not_eq_true', List.all_eq_true, bne_iff_ne, ne_eq, Bool.or_eq_true,
+      beq_iff_eq] at h
+    intro b hb
+    have hb' := (h.2 b hb).1
+    have := listChar_noCRLF b.toNat b.toNat_lt (by
+      rcases hb' with (h1 | h1) | h1
+      · exact Or.inl h1
+      · exact Or.inr (Or.inl h1)
+      · exact Or.inr (Or.inr h1))
+    constructor
+    · intro e; subst e; exact this.1 rfl
+    · intro e; subst e; exact this.2 rfl
+  · exact quotedOK_noCRLF h
+
+theorem rt_parseListMailbox (c : Choices) (s : BStr) (hp : ListPatOK s) (fuel : Nat) (hf : s.length + 1 < fuel) :
     RT (parseListMailbox fuel) (printListMailbox c s) s (nextNot isListChar) := by
   intro cx rest hr
   unfold printListMailbox
@@ -225,19 +250,19 @@ theorem rt_parseListMailbox (c : Choices) (s : BStr) (fuel : Nat) (hf : s.length
     rw [matchesWith_load_no h34]
     simp only [Bool.false_eq_true, if_false]
     rw [parseString_quoted]
-    exact rt_parseQuoted s fuel (by omega) cx rest trivial
+    exact rt_parseQuoted s hp.noCRLF fuel (by omega) cx rest trivial
 
 theorem nextNot_list_cr (r : Bytes) : nextNot isListChar (13 :: r) := by rfl
 
-theorem rt_parseListCmd (mk : BStr → BStr → Cmd) (c : Choices) (m p : BStr) (hm : MboxOK m) (fuel : Nat)
-    (hf : m.length + p.length + 2 < fuel) :
+theorem rt_parseListCmd (mk : BStr → BStr → Cmd) (c : Choices) (m p : BStr) (hm : MboxOK m)
+    (hp : ListPatOK p) (fuel : Nat) (hf : m.length + p.length + 2 < fuel) :
     RT (parseListCmd mk fuel) (32 :: (printMailbox c.r.l m ++ (32 :: printListMailbox c.r.r p)))
       (mk m p) (nextNot isListChar) := by
   unfold parseListCmd
   refine RT.bind (w1 := [32]) (rt_consume rfl anyRest) ?_ (fun _ _ => trivial)
   refine RT.bind (rt_parseMailbox _ m hm fuel (by omega)) ?_ (fun r _ => nextNot_astring_sp _)
   refine RT.bind (w1 := [32]) (rt_consume rfl anyRest) ?_ (fun _ _ => trivial)
-  exact RT.map _ (rt_parseListMailbox _ p fuel (by omega))
+  exact RT.map _ (rt_parseListMailbox _ p hp fuel (by omega))
 
 /-! ### status -/
 
